@@ -154,7 +154,8 @@ theorem unadvertised_pointer_is_error_and_session_continues (w : World) (adv : A
     simp only [runCall, clientSend, hc]
     rw [unadvertised_request_pointer_refused _ none adv .bad (by rw [he]) rfl, he]
     simp only [clientReclaim]
-    cases w; simp_all
+    cases w with
+    | mk sg c h => simp only [] at hc ⊢; subst hc; rfl
   exact ⟨h1, by rw [runAll_cons, h1]; rfl⟩
 
 /-- the same for a stream call: the refusal comes before dispatch, the input the client had
@@ -180,12 +181,12 @@ theorem unadvertised_stream_pointer_is_error_and_session_continues (w : World) (
       | raw => rw [hvia] at hv; simp [Via.wellBehaved] at hv
   have h1 : runCall w (.stream adv param .raw initErr turns hold) = (w, [.err ioError]) := by
     simp only [runCall, clientSend, hc, heng]
-    rw [hc] at hsn
-    rw [hsn.1]
-    simp only []
+    have hfst : (sendNext none w.segs turns).1 = w.segs := congrArg Prod.fst hsn.1
+    rw [hfst]
     rw [unadvertised_request_pointer_refused _ none adv .bad (by rw [he]) rfl, he]
     simp only [clientReclaim, hsn.2]
-    cases w; simp_all
+    cases w with
+    | mk sg c h => simp only [] at hc ⊢; subst hc; rfl
   rw [runAll_cons, h1]; rfl
 
 /-- **unadvertised_input_pointer_refused**: in a stream call for which no segment is engaged, an
@@ -223,13 +224,13 @@ def sampleCalls : List Call :=
 
 example : ∀ c ∈ sampleCalls, c.wellBehaved = true := by decide
 
-example : (runAll (freshWorld [5000]) sampleCalls).2 =
+example : (runAll (freshWorld [4500]) sampleCalls).2 =
     [.ok 2 true, .ok 5 false, .err "ValueError", .ok 8 false] := by decide
 
-example : ((runAll (freshWorld [5000]) sampleCalls).1.segs.get 0).seg.table = [(65536, 300)] ∧
-    (runAll (freshWorld [5000]) sampleCalls).1.held = [(0, 65536)] := by decide
+example : ((runAll (freshWorld [4500]) sampleCalls).1.segs.get 0).seg.table = [(65536, 300)] ∧
+    (runAll (freshWorld [4500]) sampleCalls).1.held = [(0, 65536)] := by decide
 
-example : ((runAll (freshWorld [5000]) (sampleCalls ++ [.release])).1.segs.get 0).seg.table = [] := by
+example : ((runAll (freshWorld [4500]) (sampleCalls ++ [.release])).1.segs.get 0).seg.table = [] := by
   decide
 
 /-- with room for several batches the stream's pointers are really exercised -/
